@@ -3,6 +3,7 @@ CONSTANTS
   Masters <- TraceMasters
   Nodes <- TraceNodes
   Rules <- AllRules
+  MbpCap = 101
   Cfg <- TraceCfg0
   NoBlock <- TNoBlock
   Genesis <- TGenesis
